@@ -248,6 +248,7 @@ def finish(prop, mod, tier, seed, res, known, t0, verbose=False, extra_cov=None,
         "obligation_solvers": {str(k): v for k, v in by_solver.items()},
         "functions_entered": sorted(functions),
         "source_sha256": hashes,
+        "repo_analysed": str(REPO),
         "bounds": getattr(mod, "BOUNDS", {}).get(tier, getattr(mod, "BOUNDS", {})),
         "outside_claim": getattr(mod, "OUTSIDE", []),
         "witness_only_clauses": getattr(mod, "WITNESS_ONLY", []),
